@@ -91,7 +91,7 @@ add("C14", "E1",
 
 add("C06", "E1",
     "bounded-exhaustive enumeration of store/bump/load sequences vs. symbolic address tracker",
-    "store x [0..1 (thorough: 2) pointer bumps] x load (x second store) over every addressing shape "
+    "store x [0..2 pointer bumps] x load (x second store) over every addressing shape "
     "(base, base+disp, base+index*scale, AArch64 pre-/post-index), displacement pairs, bumps by "
     "add/sub immediate, inc/dec, register copy (incl. copy chains and copy-with-offset), pre-/post-"
     "indexed accesses in between, read-modify-write stores and one untracked change, on shipped "
